@@ -139,7 +139,11 @@ pub fn underscore_variables(rng: &mut Rng, text: &str) -> String {
 }
 
 pub fn theory_text(rng: &mut Rng) -> String {
-    match rng.weighted(&[45, 20, 35]) {
+    match rng.weighted(&[40, 18, 30, 12]) {
+        3 => {
+            let n = 1 + rng.below(2);
+            (0..n).map(|_| format!("{}.\n", kw_theory_formula(rng))).collect()
+        }
         0 => {
             let n = 1 + rng.below(2);
             (0..n).map(|_| format!("{}.\n", rqd_redex(rng))).collect()
@@ -155,7 +159,87 @@ pub fn theory_text(rng: &mut Rng) -> String {
     }
 }
 
+// ------------------------------------------------------------------ C15 / finding F7e: keyword-prefixed names
+/// symbolic constants / predicate names with a keyword literal at their front (class F7b when they reach
+/// formula-start position: `notq`, `nota`, `not_`, `notQ`, `forallX`, `existsY`, `forallX1`, `existsZz`) and
+/// look-alikes OUTSIDE the class (`forall` / `exists` followed by a lower-case letter or nothing, `no`,
+/// `_notq`, `anot`).  All of them are symbolic constants of the input language (lower-case first letter).
+pub const KW_SYMBOLS: &[&str] = &[
+    "notq", "nota", "not_", "notQ", "forallX", "existsY", "forallX1", "existsZz", "notforall",
+    "forallx", "existsa", "forall", "exists", "no", "_notq", "anot", "existsy1", "foralL",
+];
+const KW_PREDS: &[&str] = &["notp", "forallX", "existsY", "not_", "forallx", "existsy", "nop"];
+
+fn kw_sym(rng: &mut Rng) -> &'static str {
+    pk(rng, KW_SYMBOLS)
+}
+
+fn kw_rel(rng: &mut Rng) -> &'static str {
+    pk(rng, &["=", "!=", "<", "<=", ">", ">="])
+}
+
+/// one rule with keyword-prefixed symbolic constants in a chosen position: first / second term of a body
+/// comparison, interval membership, interval bound (not regular: natural refuses, mu goes to tau*), head
+/// argument (basic and choice), head interval, argument of a body literal, under arithmetic (not regular).
+pub fn kw_rule(rng: &mut Rng) -> String {
+    let s = kw_sym(rng);
+    let s2 = kw_sym(rng);
+    let p = if rng.chance(8) { pk(rng, KW_PREDS) } else { pk(rng, &["p", "q", "r"]) };
+    let q = if rng.chance(8) { pk(rng, KW_PREDS) } else { pk(rng, &["q", "r", "s"]) };
+    let rel = kw_rel(rng);
+    match rng.below(16) {
+        0 => format!("{p} :- {s} {rel} 1."),
+        1 => format!("{p} :- {s} {rel} X, {q}(X)."),
+        2 => format!("{p} :- 1 {rel} {s}."),
+        3 => format!("{p} :- {s} {rel} {s2}."),
+        4 => format!("{p} :- {s} = 1..2."),
+        5 => format!("{p}(X) :- X = {s}..3."),
+        6 => format!("{p}({s})."),
+        7 => format!("{p}({s}, X) :- {q}(X), not r({s2})."),
+        8 => format!("{{{p}({s})}} :- {s2} {rel} X, {q}(X)."),
+        9 => format!("{p}(1..{s})."),
+        10 => format!("{p}(X, 1..3) :- {q}(X, {s}), {s} {rel} X."),
+        11 => format!(":- {s} {rel} {s2}."),
+        12 => format!(":- {q}({s}), not not {p}({s2}), X = {s}, {q}(X)."),
+        13 => format!("{p} :- {s} + 1 {rel} 2."),
+        14 => format!("{p}(X + 1) :- {s} {rel} X, {q}(X)."),
+        _ => format!("{p} :- not {q}, {s} {rel} 1, 2 {rel} {s2}, {s2} = 1..X, r(X)."),
+    }
+}
+
+pub fn kw_program_text(rng: &mut Rng) -> String {
+    let n = 1 + rng.below(3);
+    (0..n).map(|_| kw_rule(rng)).collect::<Vec<_>>().join("\n")
+}
+
+/// theories with keyword-prefixed constants where a rewrite can move them to formula-start position
+/// (comparison chains split by evaluate_comparisons, defined variables substituted by the classic
+/// portfolio) or where they already are (class F7b on the input side: refused or misread at parse time)
+pub fn kw_theory_formula(rng: &mut Rng) -> String {
+    let s = kw_sym(rng);
+    let s2 = kw_sym(rng);
+    let rel = kw_rel(rng);
+    let rel2 = kw_rel(rng);
+    match rng.below(12) {
+        0 => format!("1 {rel} {s} {rel2} 2"),
+        1 => format!("X {rel} {s} {rel2} {s2}"),
+        2 => format!("exists X (X = {s} and X {rel} 1)"),
+        3 => format!("exists X$s ({s} = X$s and X$s {rel} {s2})"),
+        4 => format!("forall X (X = {s} -> p(X) or X {rel} 1)"),
+        5 => format!("p({s}) <-> 1 {rel} {s}"),
+        6 => format!("forall X (p(X) <- 1 = {s} {rel} X)"),
+        7 => format!("forall X (p(X, {s}) <-> q(X) and X {rel} {s2})"),
+        8 => format!("({s}) {rel} 1"),
+        9 => format!("p <- ({s}$i = 1)"),
+        10 => format!("{s}$g {rel} X -> q({s2}$s)"),
+        _ => format!("forall V1 (V1 = {s} and 1 {rel} {s2} -> p(V1))"),
+    }
+}
+
 pub fn program_text(rng: &mut Rng) -> String {
+    if rng.chance(25) {
+        return kw_program_text(rng);
+    }
     let mut c = g::AspCfg::default();
     if rng.chance(30) {
         c.preds.extend_from_slice(&["and", "or", "forall", "exists", "andy", "forallx", "_p"]);
